@@ -1,5 +1,26 @@
-(* C07 shares the lifecycle entry points *)
+(* C07: lifecycle traces (shared entry points) and, in addition, the listing on synthetic tables *)
+From Coq Require Import List NArith Bool.
 From AdltV Require Export Base.Obs Exec.Lifecycle.
-Definition case_C07 := case_LC.
-Definition agree_C07 := agree_LC.
-Definition run_C07 := run_LC.
+From AdltV Require Import Lifecycle.Model.
+Import ListNotations.
+Open Scope N_scope.
+
+(* (id, ecu, start, resume origin (id, start snapshot)) *)
+Definition trow := (N * N * N * option (N * N))%type.
+Inductive case_C07 := CStream (c : case_LC) | CTable (rows : list trow).
+
+Definition lc_of_row (r : trow) : lcy :=
+  let '(i, e, s, res) := r in
+  {| l_id := i; l_ecu := e; l_nr := 1; l_nr_creq := 0; l_start := s; l_min_ts := 0; l_max_ts := 0; l_last_rt := s;
+     l_resume := match res with Some (oi, os) => Some {| r_id := oi; r_max_ts := 0; r_start := os |} | None => None end |}.
+
+Definition run_C07 (c : case_C07) : otree :=
+  match c with
+  | CStream s => run_LC s
+  | CTable rows => T [L 0; T (map (fun x => L (l_id x)) (listing (map lc_of_row rows)))]
+  end.
+Definition agree_C07 (c : case_C07) (o : otree) : bool :=
+  match c with
+  | CStream s => agree_LC_mode 7 s o
+  | CTable rows => otree_eqb o (run_C07 c)
+  end.
